@@ -280,10 +280,12 @@ Built(e) ==
              ELSE /\ (IF Span(e.signed.bytes, stx.kids[1]) = Span(e.tx, body) THEN TRUE       \* signing did not alter the body
                        ELSE Emit([t |-> "TOOLFAIL", what |-> "the signed transaction carries a different body", sc |-> sc, d |-> 0]))
                   \* a caller-fixed fee that the validating build accepted is at least the minimum ("used exactly or the build fails")
-                  /\ (feeReq[1] = "exact" /\ ~e.unsafe /\ ~balanced =>
+                  /\ (feeReq[1] = "exact" /\ ~e.unsafe =>
                         /\ Obl("C06", sc, <<"fixed-fee-accepted", Len(vks), Len(boots), excost.n # Zero, refBytes > 0>>)
                         /\ Chk(Geq(fee, minfee), "C06", "Built/fixed-fee-below-minimum-accepted", sc, [fee |-> ToBE(fee, 0), min |-> ToBE(minfee, 0), size |-> size]))
-                  /\ (balanced \/ (stale /\ ~e.unsafe) => /\ Obl("C06", sc, <<shape, stale, Len(vks), Len(boots), Len(GetK(body,2).arg)>>)
+                  \* (a fee the CALLER fixed is "used exactly or the build fails": the balancing call takes it as given, the validating build
+                  \* refuses it when it is too low - the non-validating build, which the harness falls back to, then carries no sufficiency demand)
+                  /\ ((balanced \/ (stale /\ ~e.unsafe)) /\ ~(feeReq[1] = "exact" /\ e.unsafe) => /\ Obl("C06", sc, <<shape, stale, Len(vks), Len(boots), Len(GetK(body,2).arg)>>)
                                   /\ Chk(Geq(fee, minfee), "C06", "Built/fee-below-minimum", sc,
                                          [fee |-> ToBE(fee, 0), min |-> ToBE(minfee, 0), size |-> size, vkeys |-> Len(vks), boots |-> Len(boots), unsafe |-> e.unsafe]))
                   \* (every build that returns a transaction - also the non-validating build_tx_unsafe - goes through the size check)
